@@ -134,7 +134,8 @@ class Interp:
                 'falsy': Falsy, 'bool_raises': BoolRaises,
                 'eq_true': EqTrue, 'eq_false': EqFalse,
                 'eq_raises': EqRaises, 'obj': object,
-                'world': d.World, 'via': object}[vcode]()
+                'world': d.World, 'via': object,
+                'clearer': object}[vcode]()
 
     def on_load(self, hid):
         st = self.h[hid]
@@ -143,7 +144,16 @@ class Interp:
         if st.attempts in st.fails:
             self.faults['load_raises'] += 1
             raise LoadFail(f'h{hid} load #{st.attempts}')
-        if st.vcode == 'via':
+        if st.vcode == 'clearer':
+            # this load clears another handle (possibly one whose own load
+            # is in progress further up the stack)
+            tgt = self.h.get(st.target)
+            if tgt is not None and tgt is not st:
+                tgt.obj.clear()
+                self.model_clear(st.target)
+                self.probes['clear_from_inside_a_load'] += 1
+            v = object()
+        elif st.vcode == 'via':
             v = self.nested_load(st)
         else:
             v = self.make_value(st.vcode)
@@ -234,12 +244,30 @@ class Interp:
     def build(self, spec):
         """valspec -> (kind, model object). Real object is created too."""
         d = self.desper
+        if spec['kind'] == 'reuse':
+            # an object that was displaced from the tree is inserted again
+            ref = spec['ref']
+            node = self.h.get(ref) if not isinstance(ref, str) else \
+                self.maps.get(ref)
+            if node is None or node is self.root:
+                return None
+            # only objects that sit nowhere any more - neither in the tree
+            # nor inside another displaced sub-tree (that would be aliasing)
+            maps_in, handles_in = self.contained()
+            if isinstance(ref, str):
+                if ref in maps_in:
+                    return None
+            elif ref in handles_in or not node.inserted:
+                return None
+            self.probes['displaced_object_reinserted'] += 1
+            return ('map' if isinstance(ref, str) else 'handle', node)
         if spec['kind'] == 'handle':
             hid = spec['id']
             if hid in self.h:
                 return None
             st = HState(hid, spec.get('val', 'obj'), spec.get('fails', []))
             st.via = spec.get('via')
+            st.target = spec.get('target')
             st.obj = self.CountingHandle(hid)
             self.h[hid] = st
             return ('handle', st)
@@ -254,6 +282,38 @@ class Interp:
             else:
                 self.do_set(mm, item[0], item[1])
         return ('map', mm)
+
+    def contained(self):
+        """Ids of the maps that are a child of some known map and of the
+        handles stored in some layer of some known map (reachable or not)."""
+        maps_in, handles_in = set(), set()
+        seen = set()
+
+        def walk(mm):
+            if id(mm) in seen:
+                return
+            seen.add(id(mm))
+            for layer in mm.layers:
+                handles_in.update(layer.values())
+            for sub in mm.maps.values():
+                maps_in.add(sub.label)
+                walk(sub)
+        for mm in list(self.maps.values()):
+            walk(mm)
+        return maps_in, handles_in
+
+    def reachable(self):
+        """Ids of the maps and handles (all layers) reachable in the model."""
+        maps_in, handles_in = set(), set()
+
+        def walk(mm):
+            maps_in.add(mm.label)
+            for layer in mm.layers:
+                handles_in.update(layer.values())
+            for sub in mm.maps.values():
+                walk(sub)
+        walk(self.root)
+        return maps_in, handles_in
 
     def do_layer(self, mm):
         mm.obj.handles.maps.insert(0, {})
@@ -788,6 +848,8 @@ class GenState:
         self.worlds = []
         self.mpaths = [[]]
         self.snaps = 0
+        self.pending_clearer = None
+        self.all_ids = []
 
     def new_id(self):
         self.next_id += 1
@@ -803,7 +865,20 @@ class GenState:
             val = rng.choice(['obj', 'obj', 'none', 'zero', 'list'])
             fails = []
         spec = {'kind': 'handle', 'id': hid, 'val': val, 'fails': fails}
-        if self.prop == 'C12' and self.hids and rng.random() < .12:
+        if self.pending_clearer is not None:
+            # second half of a pair: this handle's load reaches the clearer,
+            # whose load clears this very handle
+            b = self.pending_clearer
+            self.pending_clearer = None
+            b['target'] = hid
+            spec['val'] = val = 'via'
+            spec['via'] = b['id']
+            spec['fails'] = []
+        elif self.prop == 'C12' and rng.random() < .08:
+            spec['val'] = val = 'clearer'
+            spec['fails'] = []
+            self.pending_clearer = spec
+        elif self.prop == 'C12' and self.hids and rng.random() < .12:
             spec['val'] = val = 'via'
             spec['via'] = rng.choice(self.hids)
         self.hids.append(hid)
@@ -832,10 +907,16 @@ class GenState:
         return spec
 
     def valspec(self, depth, prefix):
+        if depth == 0 and self.all_ids and self.rng.random() < .1:
+            return {'kind': 'reuse', 'ref': self.rng.choice(self.all_ids)}
         if self.rng.random() < .62 or depth >= 2:
-            return self.handle_spec()
+            spec = self.handle_spec()
+            self.all_ids.append(spec['id'])
+            return spec
         self.mpaths.append(list(prefix))
-        return self.map_spec(depth, prefix)
+        spec = self.map_spec(depth, prefix)
+        self.all_ids.append(spec['id'])
+        return spec
 
     def key(self):
         rng = self.rng
@@ -957,12 +1038,13 @@ INFO = {
 PROBES = {
     'C11': ['implicit_intermediate_created', 'handle_replaced_by_map',
             'map_replaced_by_handle', 'layered_name_reassigned',
-            'clear_layered', 'assign_into_submap', 'empty_key_component'],
+            'clear_layered', 'assign_into_submap', 'empty_key_component',
+            'displaced_object_reinserted'],
     'C12': ['falsy_value_reaccessed', 'path.call', 'path.getitem_root',
             'path.getitem_sub', 'path.getitem_chain', 'path.get_call',
             'path.static_attr', 'path.static_item', 'path.static_get',
             'path.loop_switch', 'path.nested_load', 'nested_load',
-            'eq_raises_value', 'load_failed',
+            'clear_from_inside_a_load', 'eq_raises_value', 'load_failed',
             'load_failed_then_retry', 'clear_between_accesses'],
     'C17': ['non_identifier_name', 'layered_snapshot',
             'nested_setattr_rejected', 'setattr_rejected',
